@@ -36,13 +36,19 @@ def _v(rec, clause, sig, *a, **k):
 
 def units(tier, seed):
     out = [dict(kind="lat2", part=p, tier=tier, seed=seed) for p in range(4)]
-    out += [dict(kind="fixed", which=w, tier=tier, seed=seed) for w in range(6)]
+    out += [dict(kind="fixed", which=w, tier=tier, seed=seed) for w in range(8)]
     out += [dict(kind="system", which=w, tier=tier, seed=seed) for w in range(6)]
     return out
 
 
 def clip_volume_fraction(P, a, theta, vol):
     """volume fraction of conv(P) in the half-space a.x <= theta (exact up to round-off)."""
+    # work in normalised coordinates (the fraction is scale-free; the de-duplication below rounds absolutely)
+    sc = float(np.max(np.abs(P - P.mean(0)))) or 1.0
+    c_ = P.mean(0)
+    theta = (theta - float(c_ @ a)) / sc
+    P = (P - c_) / sc
+    vol = O.hull_volume(P)
     s = P @ a
     pts = [p for p, v in zip(P, s) if v <= theta + 1e-12]
     for i, j in itertools.combinations(range(len(P)), 2):
@@ -156,6 +162,29 @@ def _run_cloud(rec, dreye, name, P, family, tier, seed, uniform=True):
     for f in (0.3, 0.6):
         cells.append((a, s.min() + f * (s.max() - s.min())))
     fracs = [clip_volume_fraction(V, a, th, vol) for a, th in cells]
+    # oracle self-check against a second, independent method (qhull on the clipped point set): a disagreement is a
+    # problem of the harness, never a verdict on dreye - the cell is dropped and counted
+    try:
+        from scipy.spatial import ConvexHull
+
+        keep = []
+        for (a, th), fr in zip(cells, fracs):
+            sv = V @ a
+            pts = [p for p, v_ in zip(V, sv) if v_ <= th]
+            for i, j in itertools.combinations(range(len(V)), 2):
+                if (sv[i] - th) * (sv[j] - th) < 0:
+                    pts.append(V[i] + (th - sv[i]) / (sv[j] - sv[i]) * (V[j] - V[i]))
+            try:
+                ref = ConvexHull(np.array(pts)).volume / ConvexHull(V).volume if len(pts) > d else 0.0
+            except Exception:  # noqa - degenerate clipped set
+                ref = fr
+            if abs(ref - fr) > 1e-6:
+                rec.count("oracle-self-check-disagreement")
+            else:
+                keep.append(((a, th), fr))
+        cells, fracs = [k[0] for k in keep], [k[1] for k in keep]
+    except ImportError:
+        pass
     for sd in seeds[:2] + [int(seed) + 10]:
         sig = dict(family=family, api="dreye.sample_in_hull", engine="None", l1="none")
         case = dict(cloud=name, n=nU, seed=sd, uniformity=True)
@@ -204,6 +233,8 @@ def run_unit(unit, rec):
             ("skewed-3d", np.array([[0.0, 0, 0], [4.0, 0.2, 0], [0, 1.0, 0], [0, 0, 0.5], [4.0, 1.0, 0.5], [1.0, 0.25, 0.1]])),
             ("simplex-4d", np.vstack([np.zeros(4), np.eye(4) * np.array([1.0, 2.0, 0.5, 3.0])])),
             ("zonotope-3d", AL.lattice(np.zeros(4), np.array([1.0, 1.25, 1.5, 1.75]), (0.0, 1.0)) @ AL.gauss_A(3, [0, 2, 4, 6]).T),
+            ("skewed-2d-tiny", np.array([[0.0, 0.0], [10.0, 0.5], [10.0, 1.0], [0.2, 0.1], [5.0, 0.5], [9.0, 0.8]]) * 2e-5),
+            ("skewed-3d-tiny", np.array([[0.0, 0, 0], [4.0, 0.2, 0], [0, 1.0, 0], [0, 0, 0.5], [4.0, 1.0, 0.5], [1.0, 0.25, 0.1]]) * 1e-3),
         ]
         name, P = clouds[w]
         _run_cloud(rec, dreye, name, P, name, tier, seed, uniform=(P.shape[1] <= 3 and len(P) <= 16))
